@@ -444,7 +444,7 @@ impl Property for Ints {
     fn budget(&self, tier: Tier) -> Budget {
         Budget {
             cases: tier.pick(300_000, 20_000_000),
-            tape_len: 120,
+            tape_len: 300,
         }
     }
     fn decode(&self, t: &mut Tape<'_>) -> IntCase {
@@ -685,7 +685,7 @@ impl Property for Bools {
     fn budget(&self, tier: Tier) -> Budget {
         Budget {
             cases: tier.pick(60_000, 3_000_000),
-            tape_len: 40,
+            tape_len: 80,
         }
     }
     fn decode(&self, t: &mut Tape<'_>) -> BoolCase {
@@ -835,7 +835,7 @@ impl Property for Possible {
     fn budget(&self, tier: Tier) -> Budget {
         Budget {
             cases: tier.pick(150_000, 6_000_000),
-            tape_len: 80,
+            tape_len: 200,
         }
     }
     fn decode(&self, t: &mut Tape<'_>) -> PvCase {
@@ -1129,7 +1129,7 @@ impl Property for Histories {
     fn budget(&self, tier: Tier) -> Budget {
         Budget {
             cases: tier.pick(150_000, 6_000_000),
-            tape_len: 120,
+            tape_len: 400,
         }
     }
     fn decode(&self, t: &mut Tape<'_>) -> AccessCase {
